@@ -114,8 +114,10 @@ func c31Build() {
 var c31OpenMu sync.Mutex
 
 func c31Open(dir string, w uint64) (*indexer.Indexer, error) {
-	c31OpenMu.Lock()
-	defer c31OpenMu.Unlock()
+	if os.Getenv("VERIF_C31_UNSERIALISED") == "" { // the knob only exists to reproduce the abort described above
+		c31OpenMu.Lock()
+		defer c31OpenMu.Unlock()
+	}
 	return indexer.NewIndexer(dir, c31Parser, w)
 }
 
